@@ -118,11 +118,15 @@ struct Run : ContBase {
         long n = (long)m.size();
         if (s.chance(1, 10)) {
             // a capacity nobody can provide: the request must be refused without any effect
-            size_t huge = (size_t)-1 / objsize - (size_t)s.range(0, 3);
+            // ... including element counts whose byte size does not even fit in a size_t
+            size_t lim = (size_t)-1 / objsize;
+            int hk = (int)s.range(0, 4);
+            size_t huge = hk == 0 ? lim - (size_t)s.range(0, 3) : hk == 1 ? (size_t)-1 - (size_t)s.range(0, 2) : hk == 2 ? (objsize > 1 ? lim + 1 + (size_t)s.range(0, 2) : lim) : hk == 3 ? ((size_t)1 << 62) + (size_t)s.range(0, 2) : ((size_t)1 << 63) + (size_t)s.range(0, 1);
+            if (objsize == 1 && huge < ((size_t)1 << 60)) huge = lim;
             size_t max0 = v->max, num0 = v->num; void *data0 = v->data;
             errno = poison;
             bool ok = qvector_resize(v, huge);
-            c.op("resize(SIZE_MAX/objsize) n=%ld", n);
+            c.op("resize(%zu = about 2^%d elements of %zu bytes) n=%ld", huge, (int)(huge >> 62 ? (huge >> 63 ? 63 : 62) : 61), objsize, n);
             seei(ok);
             if (ok) c.fail(FUNC, "vector:resize-huge", "resize to %zu elements of %zu bytes reported success", huge, objsize);
             if (v->max != max0 || v->num != num0 || v->data != data0) c.fail(FUNC, "vector:resize-refused-effect", "a refused resize changed the vector: capacity %zu -> %zu, count %zu -> %zu", max0, v->max, num0, v->num);
@@ -184,6 +188,14 @@ struct Run : ContBase {
         if (s.chance(1, 5)) { opt = 0; if (s.boolean()) opt |= QVECTOR_RESIZE_EXACT; if (s.boolean()) opt |= QVECTOR_RESIZE_LINEAR; if (s.boolean()) opt |= QVECTOR_RESIZE_DOUBLE; policy = (opt & QVECTOR_RESIZE_DOUBLE) ? 2 : (opt & QVECTOR_RESIZE_LINEAR) ? 1 : 0; combo = true; }
         if (s.chance(1, 4)) { opt |= QVECTOR_THREADSAFE; tsafe = true; }
         vf_ledger_on = 1;
+        if (s.chance(1, 12)) {
+            size_t lim = (size_t)-1 / objsize;
+            size_t hugecap = s.boolean() ? lim - (size_t)s.range(0, 2) : (objsize > 1 ? lim + 1 + (size_t)s.range(0, 2) : lim);
+            errno = poison;
+            qvector_t *hv = qvector(hugecap, objsize, opt);
+            c.op("qvector(max=%zu, objsize=%zu): a capacity nobody can provide", hugecap, objsize);
+            if (hv) { size_t mx = hv->max; qvector_free(hv); c.fail(FUNC, "vector:ctor-huge", "qvector(%zu,%zu) returned a vector claiming capacity %zu", hugecap, objsize, mx); }
+        }
         v = qvector(cap, objsize, opt);
         if (!v) c.fail(FUNC, "vector:ctor", "qvector(%zu,%zu,%d) returned NULL", cap, objsize, opt);
         c.op("qvector(max=%zu, objsize=%zu, options 0x%x: %s%s%s)", cap, objsize, opt, policy == 0 ? "EXACT" : policy == 1 ? "LINEAR" : "DOUBLE", combo ? " [policy bits combined]" : "", tsafe ? " THREADSAFE" : "");
